@@ -117,6 +117,33 @@ pub struct Line {
 }
 
 impl Line {
+    /// the two-line program that holds tokens [from, to) of this line in a name bound on an earlier line:
+    /// `name = <tokens>` and the line with those tokens replaced by the name (a blank on either side of the name)
+    pub fn via_variable(&self, from: usize, to: usize, name: &str, dec: &str, thou: &str) -> String {
+        let mut def = Line::default();
+        for w in name.split(' ') {
+            def.push(Tok::word(w, Class::Var));
+        }
+        def.push(Tok::op('='));
+        for t in &self.toks[from..to] {
+            def.push(t.clone());
+        }
+        let mut l = Line::default();
+        for t in &self.toks[..from] {
+            l.push(t.clone());
+        }
+        for w in name.split(' ') {
+            l.push(Tok::word(w, Class::Var));
+        }
+        for (k, t) in self.toks[to..].iter().enumerate() {
+            let mut t = t.clone();
+            if k == 0 && t.space == 0 {
+                t.space = 1;
+            }
+            l.push(t);
+        }
+        format!("{}\n{}", def.render(dec, thou), l.render(dec, thou))
+    }
     pub fn new(toks: Vec<Tok>) -> Line {
         let mut l = Line { toks };
         if let Some(t) = l.toks.first_mut() {
